@@ -48,6 +48,7 @@ type Prog struct {
 	RepoDir        string
 	IfaceContracts map[string]*Contract // pkg.Iface.Method
 	BindErrors     []string
+	OrphanPkgs     map[string][]string   // package name -> contracts whose function no longer exists
 	ApproxBind     map[string][]string   // functions whose contract was bound with a guessed renaming: a failed proof there is undecided
 	BindByFunc     map[string][]string   // binding problems of one function's contract (loop / identifier mismatch)
 	namedTypes     map[string]types.Type // pkgname.Type -> type
@@ -190,7 +191,16 @@ func LoadProg(dir string) (*Prog, error) {
 			}
 		}
 		if !c.bound {
-			p.BindErrors = append(p.BindErrors, fmt.Sprintf("%s:%d: contract for unknown function %s", filepath.Base(c.File), c.Line, name))
+			// the function is gone (renamed, or inlined into its callers): the contracts of its package are stale around it.
+			// Not an error by itself; a failing obligation in that package is then undecided, not a violation
+			if p.OrphanPkgs == nil {
+				p.OrphanPkgs = map[string][]string{}
+			}
+			pk := name
+			if i := strings.Index(name, "."); i >= 0 {
+				pk = name[:i]
+			}
+			p.OrphanPkgs[pk] = append(p.OrphanPkgs[pk], fmt.Sprintf("%s:%d: contract for unknown function %s", filepath.Base(c.File), c.Line, name))
 		}
 	}
 	for n := range p.Funcs {
